@@ -9,7 +9,7 @@ COQ_CASE_TYPE = "case"
 COQ_AGREE = "agree"
 COQ_PROP_OK = "prop_ok"
 RULE = ("seeded configurations of 1-5 versioned harness models over the three valid flag combinations (and the invalid one, which must be refused), histories of up to 15 "
-        "trainer runs (each trainer requesting a random multiset of names incl. hidden and unknown ones) and state loads with random versions; exhaustive over flag "
+        "trainer runs (each trainer requesting a random multiset of names incl. hidden and unknown ones; also two persistent trainers that run repeatedly and retrieve further models lazily inside train()) and state loads with random versions; exhaustive over flag "
         "combinations for <= 3 models in the thorough tier. Non-trivial = at least one run that synchronises some but not all retrieved models, and one load; distinct = canonical JSON.")
 TRUSTED = [
     "Coq 8.16.1 kernel incl. vm_compute",
@@ -26,8 +26,12 @@ def gen_one(rng):
     flags = [rng.choice(VALID) for _ in range(n)]
     ops = []
     for _ in range(rng.randint(1, 15)):
-        if rng.random() < 0.75:
+        r = rng.random()
+        if r < 0.5:
             ops.append(["run", [rng.randint(0, n) for _ in range(rng.randint(0, 4))]])
+        elif r < 0.75:
+            # one of two persistent trainers runs again and retrieves further models lazily, inside train()
+            ops.append(["runt", rng.randint(0, 1), [rng.randint(0, n) for _ in range(rng.randint(0, 2))]])
         else:
             ops.append(["load", [rng.randint(0, 50) for _ in range(n)]])
     return {"flags": flags, "ops": ops}
@@ -63,12 +67,24 @@ def _op(o):
     return f"(MRun {cl(cn(n) for n in o[1])})" if o[0] == "run" else f"(MLoad {cl(cn(v) for v in o[1])})"
 
 
+def _ops(case):
+    """a persistent trainer's run is, for the model, a run of a trainer that has retrieved everything it asked for so far"""
+    acc, out = {}, []
+    for o in case["ops"]:
+        if o[0] == "runt":
+            acc[o[1]] = acc.get(o[1], []) + list(o[2])
+            out.append(["run", list(acc[o[1]])])
+        else:
+            out.append(o)
+    return out
+
+
 def _opt(v):
     return "None" if v is None else f"(Some {cn(v)})"
 
 
 def coq_input(case):
-    return "{| i_flags := %s; i_ops := %s |}" % (cl(f"({cb(a)}, {cb(b)})" for a, b in case["flags"]), cl(_op(o) for o in case["ops"]))
+    return "{| i_flags := %s; i_ops := %s |}" % (cl(f"({cb(a)}, {cb(b)})" for a, b in case["flags"]), cl(_op(o) for o in _ops(case)))
 
 
 def coq_case(case, obs):
